@@ -411,9 +411,12 @@ def probe_int_tuple(ck):
     cm = AffineTransform(CS("ij"), CS("xy"), np.eye(3))
     img = Image(data, cm)
     b = np.array([0.5, 0.0])
-    r_int = np.asarray(rmod.resample(img, cm, (np.eye(2, dtype=int), b), (10, 4), order=1).get_fdata())
-    r_flt = np.asarray(rmod.resample(img, cm, (np.eye(2), b), (10, 4), order=1).get_fdata())
+    rep0 = {"entry": "resample", "source_affine": np.eye(3).tolist(), "target_affine": np.eye(3).tolist(), "mapping": "(np.eye(2), [0.5, 0])"}
+    r_int = guarded(ck, "resample/tuple/identity-call", rep0, lambda: np.asarray(rmod.resample(img, cm, (np.eye(2, dtype=int), b), (10, 4), order=1).get_fdata()))
+    r_flt = guarded(ck, "resample/tuple/identity-call", rep0, lambda: np.asarray(rmod.resample(img, cm, (np.eye(2), b), (10, 4), order=1).get_fdata()))
     ck.count(("int-tuple-probe",), bucket="resample:tuple:int-matrix-probe")
+    if r_int is None or r_flt is None:
+        return
     if not np.array_equal(r_int, r_flt):
         ck.fail("resample/tuple-int-matrix-fractional-offset",
                 "resample(img, cm, (np.eye(2, dtype=int), [0.5, 0]), order=1) gives %s..., with np.eye(2) (float) %s..." % (r_int[:3, 0].tolist(), r_flt[:3, 0].tolist()),
@@ -870,6 +873,13 @@ def sec_realign(ck, T):
                 T.add("scanner_pt_agrees %s %s %s %s %s" % (cqm(Fw), cqm(Am), cqm(Tw), cqv(xyz[k]), cqv([X[k], Y[k], Z[k]])),
                       "model-vs-impl/scanner_coords", "scanner_coords differs from the model",
                       {"from_world": Fw.tolist(), "affine": Am.tolist(), "to_world": Tw.tolist(), "xyz": xyz[k].tolist()})
+        # property: scanner_coords = from_world o affine o to_world, applied one after the other
+        seq = xyz
+        for Mx in (Tw, Am, Fw):
+            seq = seq @ Mx[:3, :3].T + Mx[:3, 3]
+        if not np.array_equal(np.c_[X, Y, Z], seq):
+            ck.fail("realign4d/scanner_coords-composition-order", "scanner_coords is not from_world(affine(to_world(xyz)))",
+                    {"from_world": Fw.tolist(), "affine": Am.tolist(), "to_world": Tw.tolist(), "xyz": xyz.tolist()})
         if it % 3 == 0 and not np.array_equal(np.c_[X, Y, Z], xyz):
             ck.fail("realign4d/scanner_coords-identity", "scanner_coords with the identity transform moves grid points",
                     {"to_world": Tw.tolist(), "xyz": xyz.tolist()})
@@ -903,7 +913,12 @@ def run(ck):
 
     def timed(name, fn, *a):
         t0 = time.time()
-        fn(*a)
+        try:
+            fn(*a)
+        except Exception as e:  # noqa  (an entry point raising on a valid input; the other sections still run)
+            import traceback
+            ck.fail("%s/unexpected-exception" % name, "section %s stopped: %s: %s" % (name, type(e).__name__, e),
+                    {"kind": "exception-in-entry-point", "trace": traceback.format_exc()[-2500:]})
         timing[name] = round(time.time() - t0, 1)
     timed("int_tuple_probe", probe_int_tuple, ck)
     timed("resample", sec_resample, ck, T)
